@@ -6,7 +6,7 @@ from fractions import Fraction as F
 from vlib.common import Result, run_driver, build_driver
 
 PID = "C15"
-LEAN_MODULES = ["BemppVerif.Props.C15"]
+LEAN_MODULES = ["BemppVerif.Props.C15", "BemppVerif.Props.C15Blocked"]
 N = "BemppVerif.C15."
 THEOREMS = [N + t for t in [
     "pack_unpack_roundtrip", "unpack_pack_roundtrip", "pack_unpack_coefficients", "pack_unpack_projections",
@@ -14,12 +14,14 @@ THEOREMS = [N + t for t in [
     "precomputed_lu_same", "precomputed_lu_same_blocked", "lu_uses_supplied_factor",
     "weak_strong_systems", "weak_strong_systems_cg", "weak_strong_systems_blocked", "strong_solution_solves_weak",
     "iteration_counter", "iteration_counter_gmres", "iteration_counter_gmres_blocked", "iteration_counter_cg",
+    "blocked_matvec_eq_dense", "blocked_matmat_eq_dense", "blocked_matmat_is_columnwise_matvec",
+    "generalized_matmat_eq_dense", "blocked_ctor_dims_sound",
 ]]
 PARTIAL = {
     N + "lu_roundtrip": "exactness of scipy.linalg.solve (and injectivity of the weak form) are hypotheses; rounding and "
     "conditioning are covered by the oracle only",
-    N + "lu_roundtrip_blocked": "same; additionally BlockedDiscreteOperator._matvec = product with to_dense() is tied by the "
-    "correspondence (unit-vector probes), not proved",
+    N + "lu_roundtrip_blocked": "same (BlockedDiscreteOperator._matvec = product with to_dense() is now a theorem, "
+    "blocked_matvec_eq_dense, over the loop model Model/Blocked.lean)",
     N + "weak_strong_systems": "convergence of SciPy's GMRES/CG and info == 0 are not modelled (third party): the theorem "
     "transfers whatever residual bound the routine achieves for the operator/right-hand side it was handed to the stated "
     "system and fixes the space of the result",
@@ -38,6 +40,11 @@ TRUSTED = [
     "SciPy's dense LU, GMRES, CG and the sparse LU behind the inverse mass matrices (external parameters of the model; "
     "exercised by the oracle, never verified)",
     "the weak forms and mass matrices given to the model are read from the implementation (sparse identity assembly is C13)",
+    "hand model lean/BemppVerif/Model/Blocked.lean of BlockedDiscreteOperator._matvec/_matmat/to_dense/__init__ and "
+    "GeneralizedDiscreteBlockedOperator._matmat/to_dense (offset loops), tied by EXACT differential comparison on dyadic data "
+    "(props/c15_blocked.py); the real-operator/complex-vector split of _matvec is compared, not modelled as a separate path; "
+    "the constructor's dimension bookkeeping (ctorDims) is compared on well- and ill-formed arrays and proved sound "
+    "(blocked_ctor_dims_sound)",
 ]
 ASSUMPTIONS = [
     "oracle tolerances: lu recovers f to 1e-10 relative for cond <= 1e6; iterative solvers: true relative residual of the stated "
@@ -759,6 +766,12 @@ def correspondence(ctx):
                              model=None if mres is None else [math.sqrt(v) for v in mres], **desc)
 
         add(line, chk)
+    # products of the discrete blocked operators (Model/Blocked.lean), exact comparison
+    from props import c15_blocked
+    try:
+        c15_blocked.add_requests(ctx, res, add)
+    except Exception as exc:  # noqa: BLE001
+        res.disagree("blocked-operator correspondence raised", error=repr(exc)[:300])
     answers = run_driver(reqs)
     for a, c in zip(answers, checks):
         c(a)
